@@ -22,11 +22,13 @@ META = {
         "registration before it tests is_set() (else a completion in between loses the callback); C16.6 (shared with C09.3) execute "
         "invokes the task once, stores the very object it returned with set() on the normal branch only and the very exception it "
         "raised with raise_exception() in the handler only (the outcome is classified by how the call ended, never by the type of "
-        "the returned value), and re-raises."),
+        "the returned value), and re-raises. C16.7 the handler that contains a failing callback in __notify, and the worker's handler behind it, only hand the caught exception on (lazy logger argument): eager formatting (`'%s' % ex`, str(ex), f-string), attribute loads or calls on it could raise again and let the callback's failure escape. C16.8 (imported from C09.3) result() returns the stored data after a true wait, EventData.wait raises the stored exception object itself, chosen by an identity test with None (a falsy exception object is still raised), and no reader modifies the stored outcome (consistency of repeated result() calls)."),
     "does_not_decide": "timing of result(timeout); the interleavings beyond the lockset and ordering clauses.",
-    "rules": {"C16.1": "dominance of the stores over the event set (interprocedural through self.set())", "C16.2": "exit-complete event-count exploration",
+    "rules": {"C16.8": "imported C09.3 (provenance of the reported outcome)",
+              "C16.1": "dominance of the stores over the event set (interprocedural through self.set())", "C16.2": "exit-complete event-count exploration",
               "C16.3": "handler structure + E4 may-raise of the notifier", "C16.4": "dominance / raise sites", "C16.5": "E5 lockset + ordering by dominance",
-              "C16.6": "provenance of the stored outcome; handler structure (common.check_execute_outcome)"},
+              "C16.6": "provenance of the stored outcome; handler structure (common.check_execute_outcome)",
+              "C16.7": "syntax-directed use classification of the containment handlers (common.check_inert_handlers)"},
     "assumptions": ["threading.Event provides a happens-before edge from set() to a wait() that returns true"],
 }
 
@@ -176,7 +178,9 @@ def check(ck):
                 n5 += 1
                 ck.require(bool(cl.held(fi, n)), "C16.5", "%s: %s of self.%s in `%s`" % (q.fn(fi), "write" if kind == "w" else "read", attr, q.stmt_text(n)[:40]),
                            "under the future's lock", "the registration field `%s` is accessed without the future's lock" % attr, q.loc(fi, n))
-    if n5 < 6:
+    if n5 < 4:
+        # (clean tree: 6 - the notifier reads and resets both fields, set_callback writes both; resetting `extra` is not
+        # required for the property as long as every registration overwrites it, which is checked below)
         raise AnalysisError("anchor vanished: accesses to the callback registration (found %d)" % n5)
     # consume in the critical section of the read
     reads = [(n, a) for (n, a, k, _t) in cl.accesses(fn_) if k == "r" and a == "__callback"]
@@ -213,3 +217,12 @@ def check(ck):
     # ---- C16.6 the outcome is stored by how the call ended (shared with C09.3) ----------------------------------------------
     common.check_execute_outcome(ck, "C16.6")
     ck.floor("C16.6", 6)
+
+    # ---- C16.7 the containment handlers cannot raise on user objects ------------------------------------------------------
+    common.check_inert_handlers(ck, "C16.7", scopes=("worker", "notify"))
+    ck.floor("C16.7", 4)
+
+    # ---- C16.8 the reported outcome (shared with C09.3) -----------------------------------------------------------------------
+    from rules import c09 as _c09o
+    common.import_rules(ck, _c09o, {"C09.3": "C16.8"})
+    ck.floor("C16.8", 12)
